@@ -1,10 +1,23 @@
-"""R-env (C01 part): run the real PrimaiteGymEnv on shipped scenarios and on variants whose RL action map is replaced by a
-generated one (every registered action type x existing / missing / powered-off components), over several episodes with
-mid-episode resets, and record the episode bookkeeping at every step."""
+"""R-env (C01 part): run the real PrimaiteGymEnv (and, for scenarios with several RL agents, the real PrimaiteGame driven
+the way PrimaiteRayMARLEnv drives it) on operation lists and evaluate the episode contract after every operation.
+
+An operation list (`ops`) is plain JSON, so that every violation record can be re-executed by `check.py C01 --replay f`:
+
+    ["reset", seed | null, options | null]     env.reset(seed=…, options=…)      (reset() without arguments when both are null)
+    <int>                                      env.step(<int>)                   (gym driver)
+    {"<agent>": <int>, …}                      one MARL step with these actions  (game driver)
+    ["mask"]                                   env.action_masks()
+    ["spaces"]                                 read env.action_space / env.observation_space
+    ["close"]                                  env.close()
+
+`play` returns the protocol lines for the Lean model (Drivers/C01.lean), what the implementation showed for each of them,
+the oracle failures, the executed prefix of the operation list and statistics about the scripted agents.
+"""
 from __future__ import annotations
 
 import copy
 import math
+import traceback
 from typing import Any, Dict, List, Optional, Tuple
 
 from harness.lib import scen
@@ -14,11 +27,16 @@ from harness.rigs import request as rreq
 DOCUMENTED = {"pending", "success", "failure", "unreachable"}
 
 
+# ------------------------------------------------------------------------------------------------ scenario helpers
 def proxy_agent_cfg(cfg: Dict) -> Optional[Dict]:
     for a in cfg.get("agents", []):
         if a.get("type") == "proxy-agent":
             return a
     return None
+
+
+def proxy_agent_cfgs(cfg: Dict) -> List[Dict]:
+    return [a for a in cfg.get("agents", []) if a.get("type") == "proxy-agent"]
 
 
 def with_proxy(cfg: Dict) -> Dict:
@@ -62,6 +80,143 @@ def augmented(cfg: Dict, rng: Rng, n_actions: int) -> Optional[Dict]:
     return cfg
 
 
+def scheduled_dirs() -> Dict[str, Any]:
+    """Folder scenarios shipped with the package (schedule.yaml + base scenario + variants)."""
+    return {d.name: d for d in sorted(scen.PKG.iterdir()) if d.is_dir() and (d / "schedule.yaml").exists()}
+
+
+def quiet(cfg: Dict) -> Dict:
+    io = dict(cfg.get("io_settings") or {})
+    io.update(scen.QUIET_IO)
+    cfg["io_settings"] = io
+    return cfg
+
+
+def schedule_entries(path) -> List[Dict]:
+    """The merged configuration of every entry of a folder scenario's schedule (what `reset` number k+1 would load)."""
+    import yaml
+    from primaite.session.episode_schedule import build_scheduler
+    n = len(yaml.safe_load((path / "schedule.yaml").read_text())["schedule"])
+    sched = build_scheduler(str(path))
+    return [quiet(copy.deepcopy(sched(k))) for k in range(n)]
+
+
+# ------------------------------------------------------------------------------------------------ drivers
+class MarlDriver:
+    """PrimaiteGame with several RL agents, driven exactly as `PrimaiteRayMARLEnv.__init__/reset/step/close` drive it (the
+    class itself needs ray.rllib, which cannot be imported here).  The call order of its `step` and `reset` is pinned to
+    the source by Gen/Episode.lean (`marlStepPipeline`, `marlResetPipeline`, obligation C01_gen_pipeline)."""
+
+    def __init__(self, cfg: Dict):
+        from primaite.game.game import PrimaiteGame
+        from primaite.session.episode_schedule import build_scheduler
+        from primaite.session.io import PrimaiteIO
+        self.episode_counter = 0
+        self.episode_scheduler = build_scheduler(copy.deepcopy(cfg))
+        self.io = PrimaiteIO.from_config(self.episode_scheduler(0).get("io_settings", {}))
+        self.game = PrimaiteGame.from_config(self.episode_scheduler(self.episode_counter))
+        self._agent_ids = list(self.game.rl_agents.keys())
+
+    @property
+    def agents(self):
+        return {name: self.game.rl_agents[name] for name in self._agent_ids}
+
+    def _get_obs(self):
+        import gymnasium
+        out = {}
+        for name in self._agent_ids:
+            agent = self.game.rl_agents[name]
+            obs = gymnasium.spaces.flatten(agent.observation_manager.space, agent.observation_manager.current_observation)
+            if agent.config.agent_settings.action_masking:
+                out[name] = {"action_mask": self.game.action_mask(name), "observations": obs}
+            else:
+                out[name] = obs
+        return out
+
+    def reset(self, seed=None, options=None):
+        from primaite.game.game import PrimaiteGame
+        from primaite.simulator.system.core.packet_capture import PacketCapture
+        if seed is not None:   # gymnasium's Env.reset(seed) only seeds env.np_random; the scenario's RNGs are seeded here so that replays repeat
+            import random
+
+            import numpy as np
+            random.seed(seed)
+            np.random.seed(seed)
+        self.episode_counter += 1
+        PacketCapture.clear()
+        self.game = PrimaiteGame.from_config(self.episode_scheduler(self.episode_counter))
+        self.game.setup_for_episode(episode=self.episode_counter)
+        state = self.game.get_sim_state()
+        self.game.update_agents(state)
+        return self._get_obs(), {}
+
+    def step(self, actions: Dict[str, int]):
+        for name, action in actions.items():
+            self.agents[name].store_action(action)
+        self.game.pre_timestep()
+        self.game.apply_agent_actions()
+        self.game.advance_timestep()
+        state = self.game.get_sim_state()
+        self.game.update_agents(state)
+        obs = self._get_obs()
+        rewards = {name: agent.reward_function.current_reward for name, agent in self.agents.items()}
+        truncated = self.game.calculate_truncated()
+        info = {"agent_actions": {name: agent.history[-1] for name, agent in self.game.agents.items()}}
+        return obs, rewards, False, truncated, info
+
+    def action_masks(self):
+        return {name: self.game.action_mask(name) for name in self._agent_ids}
+
+    def close(self):
+        pass
+
+
+class GameStepDriver:
+    """A scenario WITHOUT an RL agent, advanced by `PrimaiteGame.step()` (the loop the game offers for scripted agents only; its call
+    order is pinned by Gen/Episode.lean `gameStepPipeline`).  `reset` builds a new game from the configuration, as the environments do."""
+
+    def __init__(self, cfg: Dict):
+        from primaite.game.game import PrimaiteGame
+        self.cfg = copy.deepcopy(cfg)
+        self.episode_counter = 0
+        self.game = PrimaiteGame.from_config(copy.deepcopy(self.cfg))
+
+    def reset(self, seed=None, options=None):
+        from primaite.game.game import PrimaiteGame
+        from primaite.simulator.system.core.packet_capture import PacketCapture
+        if seed is not None:
+            import random
+
+            import numpy as np
+            random.seed(seed)
+            np.random.seed(seed)
+        self.episode_counter += 1
+        PacketCapture.clear()
+        self.game = PrimaiteGame.from_config(copy.deepcopy(self.cfg))
+        self.game.setup_for_episode(episode=self.episode_counter)
+        return {}, {}
+
+    def step(self, _action=None):
+        self.game.step()
+        rewards = {name: agent.reward_function.current_reward for name, agent in self.game.agents.items()}
+        info = {"agent_actions": {name: agent.history[-1] for name, agent in self.game.agents.items()}}
+        return {}, rewards, False, self.game.calculate_truncated(), info
+
+    def action_masks(self):
+        return {}
+
+    def close(self):
+        self.game.close()
+
+
+def make_driver(cfg: Dict, marl=False):
+    """marl: False = PrimaiteGymEnv, True = MarlDriver, "game" = GameStepDriver."""
+    if marl == "game":
+        return GameStepDriver(cfg)
+    return MarlDriver(cfg) if marl else scen.make_env(cfg)
+
+
+# ------------------------------------------------------------------------------------------------ observation of one run
 def fmt(env) -> str:
     g = env.game
     lens = ",".join(str(len(a.history)) for a in g.agents.values())
@@ -76,129 +231,315 @@ def seq_sum(xs: List[float]) -> float:
     return t
 
 
-def run_case(cfg: Dict, rng: Rng, episodes: int, steps_per_episode: int, max_len: int) -> Tuple[List[str], List[str], List[dict], List[Any]]:
-    """Returns (model protocol lines, implementation lines, oracle failures, action log)."""
-    cfg = copy.deepcopy(cfg)
-    cfg.setdefault("game", {})["max_episode_length"] = max_len
-    lines: List[str] = []
-    impl: List[str] = []
-    fails: List[dict] = []
-    log: List[Any] = []
-    try:
-        env = scen.make_env(cfg)
-    except Exception as e:
-        return [], [], [{"kind": "env-construction-raises", "exc": type(e).__name__, "msg": str(e)[:300]}], log
-    n_agents = len(env.game.agents)
-    lines.append("reset")
-    impl.append("ok")
-    lines.append(f"new {n_agents} {max_len}")
-    # the model's `new` is a reset to episode 0; the implementation's constructor does not call update_agents, but the
-    # bookkeeping observable here (tick 0, empty histories) is the same
-    impl.append(fmt(env))
-    for ep in range(episodes):
+def exc_info(e: BaseException) -> Dict[str, Any]:
+    """Where an exception came from: innermost frame inside primaite, and whether a scripted agent's `get_action` /
+    `process_action_response` is on the stack (then the agent file is named)."""
+    frames = traceback.extract_tb(e.__traceback__)
+    prim = [f for f in frames if "/primaite/" in f.filename]
+    inner = prim[-1] if prim else (frames[-1] if frames else None)
+    where = f"{inner.filename.split('primaite/')[-1]}:{inner.name}" if inner else "?"
+    agent_frames = [f for f in frames if "/game/agent/" in f.filename and f.name in ("get_action", "process_action_response")]
+    out = {"exc": type(e).__name__, "msg": (str(e).splitlines()[0] if str(e) else "")[:300], "where": where,
+           "stack": [f"{f.filename.split('primaite/')[-1]}:{f.name}" for f in prim[-5:]]}
+    if agent_frames:
+        out["agent_file"] = agent_frames[-1].filename.split("/")[-1]
+        out["agent_method"] = agent_frames[-1].name
+    return out
+
+
+def _is_tap(agent) -> bool:
+    return hasattr(agent, "current_kill_chain_stage") and hasattr(agent, "next_execution_timestep")
+
+
+class Play:
+    """Result of `play`."""
+
+    def __init__(self):
+        self.lines: List[str] = []       # protocol lines for the Lean driver
+        self.impl: List[str] = []        # what the implementation showed, one per line
+        self.fails: List[dict] = []      # oracle failures
+        self.log: List[Any] = []         # executed prefix of ops (the failing operation included)
+        self.steps = 0
+        self.resets = 0
+        self.surface: Dict[str, int] = {}   # public-surface calls made and checked
+        self.scripted: Dict[str, dict] = {}  # per scripted agent: kind, team, non-idle actions, outcomes, kill-chain stages
+        self.stage_samples: Dict[str, List[str]] = {}   # TAP agent -> stage name after every step of the LAST episode
+        self.raised: Optional[dict] = None
+        self._dirty = False              # steps taken since the scripted-agent statistics were last collected
+
+
+def _check_step(env, p: Play, max_len: Optional[int], before: Tuple[int, Dict[str, int]], reward, terminated, truncated, obs, info,
+                op) -> None:
+    g = env.game
+    tick0, lens0 = before
+    log = list(p.log)
+    if g.step_counter != tick0 + 1:
+        p.fails.append({"kind": "tick-not-advanced-by-one", "before": tick0, "after": g.step_counter, "log": log})
+    rewards = reward if isinstance(reward, dict) else {"": reward}
+    for who, r in rewards.items():
         try:
-            obs, info = env.reset(seed=rng.below(2 ** 31))
-        except Exception as e:
-            fails.append({"kind": "reset-raises", "exc": type(e).__name__, "msg": str(e)[:300], "log": list(log)})
-            break
-        log.append("reset")
-        lines.append("envreset")
-        impl.append(fmt(env))
-        for a in env.game.agents.values():
-            if a.history or a.reward_function.total_reward != 0:
-                fails.append({"kind": "reset-not-fresh", "agent": a.config.ref, "log": list(log)})
-        if not env.observation_space.contains(obs):
-            pass  # C02's business
-        n = int(env.action_space.n)
-        amap = env.agent.action_manager.action_map
-        k = steps_per_episode if not (ep == 0 and episodes > 1) else rng.range(1, max(1, steps_per_episode // 2))  # mid-episode reset
-        for t in range(k):
-            act = rng.below(n)
-            ident = amap[act][0]
-            log.append(act)
+            if isinstance(r, bool) or not math.isfinite(float(r)):
+                p.fails.append({"kind": "reward-not-finite", "value": repr(r), "agent": who, "log": log})
+        except Exception:
+            p.fails.append({"kind": "reward-not-numeric", "value": repr(r)[:80], "agent": who, "log": log})
+    if obs is None:
+        p.fails.append({"kind": "no-observation", "log": log})
+    if terminated is not False:
+        p.fails.append({"kind": "terminated-not-false", "value": repr(terminated), "log": log})
+    if max_len is not None and bool(truncated) != (g.step_counter >= max_len):
+        p.fails.append({"kind": "truncated-flag-wrong", "steps": g.step_counter, "max": max_len, "value": repr(truncated), "log": log})
+    for name, ag in g.agents.items():
+        if len(ag.history) != lens0.get(name, 0) + 1:
+            p.fails.append({"kind": "not-exactly-one-history-item-per-step", "agent": name, "before": lens0.get(name, 0),
+                            "after": len(ag.history), "log": log})
+            continue
+        it = ag.history[-1]
+        if it.timestep != tick0:
+            p.fails.append({"kind": "history-item-stamped-with-wrong-tick", "agent": name, "stamp": it.timestep, "tick": tick0, "log": log})
+        if info["agent_actions"].get(name) is not it:
+            p.fails.append({"kind": "info-not-last-item", "agent": name, "log": log})
+        if getattr(it.response, "status", None) not in DOCUMENTED:
+            p.fails.append({"kind": "response-without-status", "agent": name, "action": it.action, "response": repr(it.response)[:80],
+                            "log": log})
+        if not isinstance(it.action, str) or not isinstance(it.parameters, dict):
+            p.fails.append({"kind": "history-item-without-action", "agent": name, "log": log})
+        tot = seq_sum([h.reward for h in ag.history if h.reward is not None])
+        if any(h.reward is None for h in ag.history) or tot != ag.reward_function.total_reward:
+            p.fails.append({"kind": "total-not-sum-of-step-rewards", "agent": name, "total": ag.reward_function.total_reward,
+                            "sum": tot, "log": log})
+
+
+def _scripted_stats(env, p: Play) -> None:
+    """Statistics of the episode that is about to end (called before a reset and at the end of the run)."""
+    g = env.game
+    if not p._dirty:
+        return
+    p._dirty = False
+    for name, ag in g.agents.items():
+        typ = ag.config.type
+        if typ == "proxy-agent":
+            continue
+        st = p.scripted.setdefault(name, {"type": typ, "team": ag.config.team, "actions": 0, "not_success": 0, "shapes": {}, "stages": [],
+                                          "failed_in_stage": {}})
+        samples = p.stage_samples.get(name, [])
+        st["timeline"] = [(h.timestep, h.action, getattr(h.response, "status", "?")) for h in ag.history if h.action != "do-nothing"][:80]
+        st["stage_samples"] = list(samples)
+        for h in ag.history:
+            if h.action == "do-nothing":
+                continue
+            st["actions"] += 1
+            status = getattr(h.response, "status", "?")
+            keys = ",".join(sorted(str(k) for k in (getattr(h.response, "data", None) or {}).keys()))[:120]
+            shape = f"{h.action}|{status}|{keys}"
+            st["shapes"][shape] = st["shapes"].get(shape, 0) + 1
+            if status != "success":
+                st["not_success"] += 1
+                if h.timestep < len(samples):
+                    stg = samples[h.timestep]
+                    st["failed_in_stage"][stg] = st["failed_in_stage"].get(stg, 0) + 1
+        for s in samples:
+            if not st["stages"] or st["stages"][-1] != s:
+                st["stages"].append(s)
+    p.stage_samples = {}
+
+
+def play(env, ops: List[Any], max_len: Optional[int], p: Optional[Play] = None, announce: bool = True) -> Play:
+    """Execute `ops` on a driver (PrimaiteGymEnv or MarlDriver), evaluating the episode contract after every operation."""
+    p = p or Play()
+    marl = isinstance(env, (MarlDriver, GameStepDriver))
+    if announce:
+        n_agents = len(env.game.agents)
+        ml = max_len if max_len is not None else env.game.options.max_episode_length
+        # the model's `new` is a reset to episode 0; the implementation's constructor does not call update_agents, but the
+        # bookkeeping observable here (tick 0, empty histories) is the same
+        p.lines += ["reset", f"new {n_agents} {ml}"]
+        p.impl += ["ok", fmt(env)]
+    for op in ops:
+        p.log.append(op)
+        log = list(p.log)
+        if isinstance(op, list) and op and op[0] == "reset":
+            seed = op[1] if len(op) > 1 else None
+            options = op[2] if len(op) > 2 else None
+            _scripted_stats(env, p)
             try:
-                obs, reward, terminated, truncated, info = env.step(act)
+                if seed is None and options is None:
+                    obs, info = env.reset()
+                elif options is None:
+                    obs, info = env.reset(seed=seed)
+                else:
+                    obs, info = env.reset(seed=seed, options=options)
             except Exception as e:
-                import traceback
-                tb = traceback.extract_tb(e.__traceback__)[-1]
-                fails.append({"kind": "step-raises", "exc": type(e).__name__, "msg": str(e)[:300], "action": ident,
-                              "options": amap[act][1], "where": f"{tb.filename.split('primaite/')[-1]}:{tb.name}", "log": list(log)})
-                return lines, impl, fails, log
-            lines.append(f"step {act}")
-            impl.append(f"{fmt(env)} trunc={1 if truncated else 0} term={1 if terminated else 0}")
+                p.raised = {"kind": "reset-raises", **exc_info(e), "reset_number": p.resets + 1, "log": log}
+                p.fails.append(p.raised)
+                return p
+            p.resets += 1
+            p.lines.append("envreset")
+            p.impl.append(fmt(env))
+            if obs is None or info != {}:
+                p.fails.append({"kind": "reset-return-shape", "log": log})
+            for a in env.game.agents.values():
+                if a.history or a.reward_function.total_reward != 0:
+                    p.fails.append({"kind": "reset-not-fresh", "agent": a.config.ref, "log": log})
+            if options is not None:
+                p.surface["reset(options=…)"] = p.surface.get("reset(options=…)", 0) + 1
+            p.surface["reset(seed)" if seed is not None else "reset()"] = p.surface.get("reset(seed)" if seed is not None else "reset()", 0) + 1
+            continue
+        if isinstance(op, list) and op and op[0] in ("mask", "spaces", "close"):
             try:
-                if not math.isfinite(float(reward)):
-                    fails.append({"kind": "reward-not-finite", "value": repr(reward), "log": list(log)})
-            except Exception:
-                fails.append({"kind": "reward-not-numeric", "value": repr(reward), "log": list(log)})
-            if obs is None:
-                fails.append({"kind": "no-observation", "log": list(log)})
-            for name, ag in env.game.agents.items():
-                it = ag.history[-1]
-                if info["agent_actions"][name] is not it:
-                    fails.append({"kind": "info-not-last-item", "agent": name, "log": list(log)})
-                if getattr(it.response, "status", None) not in DOCUMENTED:
-                    fails.append({"kind": "response-without-status", "agent": name, "action": it.action, "response": repr(it.response)[:80],
-                                  "log": list(log)})
-                tot = seq_sum([h.reward for h in ag.history if h.reward is not None])
-                if any(h.reward is None for h in ag.history) or tot != ag.reward_function.total_reward:
-                    fails.append({"kind": "total-not-sum-of-step-rewards", "agent": name, "total": ag.reward_function.total_reward,
-                                  "sum": tot, "log": list(log)})
+                if op[0] == "mask":
+                    m = env.action_masks()
+                    if not marl:
+                        n = len(env.agent.action_manager.action_map)
+                        if len(m) != n or any(int(x) not in (0, 1) for x in m):
+                            p.fails.append({"kind": "action-mask-shape", "len": len(m), "actions": n, "log": log})
+                elif op[0] == "spaces":
+                    if not marl:
+                        sp_a, sp_o = env.action_space, env.observation_space
+                        if int(sp_a.n) != len(env.agent.action_manager.action_map) or sp_o is None:
+                            p.fails.append({"kind": "space-shape", "log": log})
+                else:
+                    env.close()
+            except Exception as e:
+                p.raised = {"kind": f"{op[0]}-raises", **exc_info(e), "log": log}
+                p.fails.append(p.raised)
+                return p
+            key = {"mask": "action_masks()", "spaces": "action_space/observation_space", "close": "close()"}[op[0]]
+            p.surface[key] = p.surface.get(key, 0) + 1
+            continue
+        # a step
+        g = env.game
+        before = (g.step_counter, {n: len(a.history) for n, a in g.agents.items()})
+        past_trunc = max_len is not None and g.step_counter >= max_len
+        try:
+            obs, reward, terminated, truncated, info = env.step(op)
+        except Exception as e:
+            g = env.game
+            missing = [n for n, a in g.agents.items() if len(a.history) != before[1].get(n, 0) + 1]
+            ident = None
+            if not marl:
+                try:
+                    ident = env.agent.action_manager.action_map[op]
+                except Exception:
+                    ident = None
+            p.raised = {"kind": "step-raises", **exc_info(e), "action": ident[0] if ident else None, "options": ident[1] if ident else None,
+                        "tick": before[0], "agents_without_item_for_this_tick": missing[:6], "log": log}
+            p.fails.append(p.raised)
+            p._dirty = True
+            _scripted_stats(env, p)
+            return p
+        p.steps += 1
+        p._dirty = True
+        if past_trunc:
+            p.surface["step after truncation"] = p.surface.get("step after truncation", 0) + 1
+        p.lines.append(f"step {0 if marl else int(op)}")
+        p.impl.append(f"{fmt(env)} trunc={1 if truncated else 0} term={1 if terminated else 0}")
+        _check_step(env, p, max_len, before, reward, terminated, truncated, obs, info, op)
+        for name, ag in env.game.agents.items():
+            if _is_tap(ag):
+                p.stage_samples.setdefault(name, []).append(ag.current_kill_chain_stage.name)
+    _scripted_stats(env, p)
+    return p
+
+
+def run_ops(cfg: Dict, ops: List[Any], max_len: Optional[int] = None, marl: bool = False) -> Play:
+    """Build the environment for `cfg` (optionally with another max_episode_length) and play `ops`."""
+    cfg = copy.deepcopy(cfg)
+    if max_len is not None:
+        cfg.setdefault("game", {})["max_episode_length"] = max_len
+    else:
+        max_len = (cfg.get("game") or {}).get("max_episode_length", 256)
+    p = Play()
     try:
-        env.close()
+        env = make_driver(cfg, marl)
     except Exception as e:
-        fails.append({"kind": "close-raises", "exc": type(e).__name__, "log": list(log)})
-    return lines, impl, fails, log
+        p.raised = {"kind": "env-construction-raises", **exc_info(e), "log": []}
+        p.fails.append(p.raised)
+        return p
+    return play(env, ops, max_len, p)
 
 
-def scheduled_dirs() -> Dict[str, Any]:
-    """Folder scenarios shipped with the package (schedule.yaml + base scenario + variants)."""
-    return {d.name: d for d in sorted(scen.PKG.iterdir()) if d.is_dir() and (d / "schedule.yaml").exists()}
+# ------------------------------------------------------------------------------------------------ generated operation lists
+def gen_ops(rng: Rng, n_actions: int, episodes: int, steps_per_episode: int, surface: bool = True) -> List[Any]:
+    """Several episodes of random actions over the whole action space with a mid-episode reset, a run past truncation, and
+    the rest of the public surface sprinkled in between (masks, spaces, close, reset without seed / with options)."""
+    ops: List[Any] = []
+    for ep in range(episodes):
+        how = rng.below(6) if surface else 0
+        if how == 4:
+            ops.append(["reset", None, None])
+        elif how == 5:
+            ops.append(["reset", rng.below(2 ** 31), {"verif": ep}])
+        else:
+            ops.append(["reset", rng.below(2 ** 31), None])
+        k = steps_per_episode if not (ep == 0 and episodes > 1) else rng.range(1, max(1, steps_per_episode // 2))  # mid-episode reset
+        for _ in range(k):
+            if surface and rng.chance(1, 12):
+                ops.append([rng.choice(["mask", "spaces", "close"])])
+            ops.append(rng.below(n_actions))
+    if surface:
+        ops.append(["close"])
+    return ops
 
 
-def run_scheduled(path, rng: Rng, extra_resets: int, steps: int) -> Tuple[List[str], List[str], List[dict], List[Any]]:
+def n_actions_of(cfg: Dict) -> int:
+    pa = proxy_agent_cfg(cfg)
+    return len(((pa or {}).get("action_space") or {}).get("action_map") or {}) or 1
+
+
+def run_scheduled(path, rng: Rng, extra_resets: int, steps: int) -> Play:
     """An episode-scheduled scenario: more resets than the schedule has entries (the scheduler must loop), a few steps each."""
     import yaml
     from primaite.session.environment import PrimaiteGymEnv
-    lines: List[str] = []
-    impl: List[str] = []
-    fails: List[dict] = []
-    log: List[Any] = []
+    p = Play()
     n_sched = len(yaml.safe_load((path / "schedule.yaml").read_text())["schedule"])
     try:
         env = PrimaiteGymEnv(env_config=str(path))
     except Exception as e:
-        return [], [], [{"kind": "env-construction-raises", "exc": type(e).__name__, "msg": str(e)[:300]}], log
+        p.raised = {"kind": "env-construction-raises", **exc_info(e), "log": []}
+        p.fails.append(p.raised)
+        return p
     for ep in range(n_sched + extra_resets):
-        try:
-            env.reset(seed=rng.below(2 ** 31))
-        except Exception as e:
-            fails.append({"kind": "reset-raises", "exc": type(e).__name__, "msg": str(e)[:300], "reset_number": ep + 1,
-                          "schedule_length": n_sched, "log": list(log)})
-            break
-        log.append("reset")
+        # the model is re-announced at every reset because max_episode_length and the number of agents may differ per entry
+        q = play(env, [["reset", rng.below(2 ** 31), None]], None, p, announce=False)
+        if q.raised:
+            q.raised["schedule_length"] = n_sched
+            return p
         max_len = env.game.options.max_episode_length
-        lines += ["reset", f"new {len(env.game.agents)} {max_len}"]
-        impl += ["ok", fmt(env)]
-        for a in env.game.agents.values():
-            if a.history or a.reward_function.total_reward != 0:
-                fails.append({"kind": "reset-not-fresh", "agent": a.config.ref, "log": list(log)})
+        p.lines[-1:] = ["reset", f"new {len(env.game.agents)} {max_len}"]
+        p.impl[-1:] = ["ok", fmt(env)]
         n = int(env.action_space.n)
-        for t in range(steps if ep % 2 else max(1, steps // 2)):
-            act = rng.below(n)
-            log.append(act)
-            try:
-                obs, reward, terminated, truncated, info = env.step(act)
-            except Exception as e:
-                fails.append({"kind": "step-raises", "exc": type(e).__name__, "msg": str(e)[:300],
-                              "action": env.agent.action_manager.action_map[act][0], "log": list(log)})
-                return lines, impl, fails, log
-            lines.append(f"step {act}")
-            impl.append(f"{fmt(env)} trunc={1 if truncated else 0} term={1 if terminated else 0}")
-            if not math.isfinite(float(reward)):
-                fails.append({"kind": "reward-not-finite", "value": repr(reward), "log": list(log)})
-    try:
-        env.close()
-    except Exception as e:
-        fails.append({"kind": "close-raises", "exc": type(e).__name__, "log": list(log)})
-    return lines, impl, fails, log
+        ops = [rng.below(n) for _ in range(steps if ep % 2 else max(1, steps // 2))]
+        play(env, ops, max_len, p, announce=False)
+        if p.raised:
+            return p
+    play(env, [["close"]], None, p, announce=False)
+    return p
+
+
+def replay_scheduled(env, ops: List[Any]) -> Play:
+    """Re-execute the operation list of `run_scheduled` (the model is re-announced after every reset, as there)."""
+    p = Play()
+    chunk: List[Any] = []
+    chunks: List[List[Any]] = []
+    for op in ops:
+        if isinstance(op, list) and op and op[0] == "reset":
+            if chunk:
+                chunks.append(chunk)
+            chunk = [op]
+        else:
+            chunk.append(op)
+    if chunk:
+        chunks.append(chunk)
+    for ch in chunks:
+        if ch and isinstance(ch[0], list) and ch[0][0] == "reset":
+            play(env, ch[:1], None, p, announce=False)
+            if p.raised:
+                return p
+            max_len = env.game.options.max_episode_length
+            p.lines[-1:] = ["reset", f"new {len(env.game.agents)} {max_len}"]
+            p.impl[-1:] = ["ok", fmt(env)]
+            ch = ch[1:]
+        play(env, ch, env.game.options.max_episode_length, p, announce=False)
+        if p.raised:
+            return p
+    return p
